@@ -15,6 +15,7 @@ from . import c01
 
 ID = "C20"
 BUDGET = {"quick": 10000, "thorough": 120000}
+FUZZ = {"thorough": 6000}  # coverage-guided stage: libFuzzer runs per worker (x16), see vk/fuzz.py
 EPS = Fraction(1, 10**6)
 KINDS = [
     "no_ranking", "tied_position", "non_integer_weight_veto", "non_integer_weight_random_transfer",
